@@ -3,6 +3,7 @@ import WV.Proofs.C07_Once
 import WV.Proofs.C07_Deadline
 import WV.Proofs.C07_Live
 import WV.Proofs.C07_Cancel
+import WV.Proofs.C07_Duo
 
 /-!
 C07 — transit picks exactly one connection, chosen by the sender, key holders only.
@@ -443,6 +444,112 @@ theorem fired_has_result :
 
 end
 
+/-! ## two sides: `same_link`
+
+`WV.C07.Duo` puts a Sender world and a Receiver world side by side and adds *links*.  Environment
+hypotheses, all explicit:
+* **TCP** — built into the events: `fwdSR l n` / `fwdRS l n` deliver to one end of link `l` the next
+  `n` bytes of what the other end has written, i.e. each end receives, in order and in arbitrary
+  pieces, a prefix of the peer's output (through the relay: `ok\n` first, the request line withheld);
+  losses, timers, connect failures and both `connect()` calls are independent events in any order.
+* **`SharedKey`** — the two sides derived their handshakes from the same transit key.
+* **`Keyless`** — a party without the key cannot produce the handshake: connections that are not an
+  end of a link (strangers, peers with another key — they may send any bytes) never delivered the
+  expected string.  This is the HKDF assumption, stated on the bytes the strangers sent. -/
+
+section
+variable (cfgS cfgR : Cfg) (ls : Bool) (ds : Nat) (rs : List Nat) (lr : Bool) (dr : Nat) (rr : List Nat)
+  (evs : List DEvent)
+
+/-- **`same_link`**.  For every schedule: if the Sender's `connect()` returned connection `a` and
+    the Receiver's `connect()` returned connection `b`, then
+    1. `a` and `b` are the two ends of ONE link;
+    2. it is the link on which the Sender wrote `go` — `a` is `_winner`, what the Sender wrote on it
+       is exactly (relay request,) handshake, `go`, and no other Sender connection has `go`;
+    3. on it the Receiver saw the correct sender handshake followed by `go`;
+    4. on both sides every other connection is finished and closed (negotiation not pending;
+       `loseConnection()` called or `connectionLost` delivered).
+    (`deadline` bounds, per side, the time by which its result is out.) -/
+theorem same_link (hk : SharedKey cfgS cfgR)
+    (hkl : Keyless (drun (initDuo cfgS cfgR ls ds rs lr dr rr) evs)) (a b : Nat)
+    (hsa : (drun (initDuo cfgS cfgR ls ds rs lr dr rr) evs).s.result = .ok a)
+    (hrb : (drun (initDuo cfgS cfgR ls ds rs lr dr rr) evs).r.result = .ok b) :
+    ∃ L, L ∈ (drun (initDuo cfgS cfgR ls ds rs lr dr rr) evs).links ∧ L.sEnd = a ∧ L.rEnd = b ∧
+      (drun (initDuo cfgS cfgR ls ds rs lr dr rr) evs).s.winner = some a ∧
+      (∃ ca, (drun (initDuo cfgS cfgR ls ds rs lr dr rr) evs).s.conns a = some ca ∧
+        ca.out = hsOut ca ++ [cfgS.sendThis, Gen.Transit.GO]) ∧
+      (∀ i ci, (drun (initDuo cfgS cfgR ls ds rs lr dr rr) evs).s.conns i = some ci →
+        ci.out = hsOut ci ++ [cfgS.sendThis, Gen.Transit.GO] → i = a) ∧
+      (∃ cb, (drun (initDuo cfgS cfgR ls ds rs lr dr rr) evs).r.conns b = some cb ∧
+        (pre cb ++ cfgS.sendThis ++ Gen.Transit.GO_EXPECTED) <+: cb.rx) ∧
+      (∀ i ci, (drun (initDuo cfgS cfgR ls ds rs lr dr rr) evs).s.conns i = some ci → i ≠ a →
+        ci.negD ≠ .pending ∧ (1 ≤ ci.lost ∨ ci.gone = true)) ∧
+      (∀ j cj, (drun (initDuo cfgS cfgR ls ds rs lr dr rr) evs).r.conns j = some cj → j ≠ b →
+        cj.negD ≠ .pending ∧ (1 ≤ cj.lost ∨ cj.gone = true)) := by
+  have hL := LInv_drun (LInv_init cfgS cfgR ls ds rs lr dr rr) evs
+  obtain ⟨⟨es, hes⟩, ⟨er, her⟩⟩ := drun_sides (initDuo cfgS cfgR ls ds rs lr dr rr) evs
+  have hes' : (drun (initDuo cfgS cfgR ls ds rs lr dr rr) evs).s = run (initWorld cfgS ls ds rs) es := hes
+  have her' : (drun (initDuo cfgS cfgR ls ds rs lr dr rr) evs).r = run (initWorld cfgR lr dr rr) er := her
+  have hcs : (drun (initDuo cfgS cfgR ls ds rs lr dr rr) evs).s.cfg = cfgS := by rw [hes']; exact run_cfg _ _
+  have hcr : (drun (initDuo cfgS cfgR ls ds rs lr dr rr) evs).r.cfg = cfgR := by rw [her']; exact run_cfg _ _
+  have hk' : SharedKey (drun (initDuo cfgS cfgR ls ds rs lr dr rr) evs).s.cfg
+      (drun (initDuo cfgS cfgR ls ds rs lr dr rr) evs).r.cfg := by rw [hcs, hcr]; exact hk
+  -- one-sided invariants of both sides
+  have hRSs : RS (drun (initDuo cfgS cfgR ls ds rs lr dr rr) evs).s := by
+    rw [hes']; exact run_RS (WInv_init _ _ _ _) (RS_init _ _ _ _) es
+  have hRSr : RS (drun (initDuo cfgS cfgR ls ds rs lr dr rr) evs).r := by
+    rw [her']; exact run_RS (WInv_init _ _ _ _) (RS_init _ _ _ _) er
+  have hTs : TR (drun (initDuo cfgS cfgR ls ds rs lr dr rr) evs).s := by
+    rw [hes']; exact TR_run (WInv_init _ _ _ _) (Port_init _ _ _ _) (K_init _ _ _ _) (TR_init _ _ _ _) es
+  have hTr : TR (drun (initDuo cfgS cfgR ls ds rs lr dr rr) evs).r := by
+    rw [her']; exact TR_run (WInv_init _ _ _ _) (Port_init _ _ _ _) (K_init _ _ _ _) (TR_init _ _ _ _) er
+  have h8s : W8 (drun (initDuo cfgS cfgR ls ds rs lr dr rr) evs).s := by
+    rw [hes']; exact W8_run (WInv_init _ _ _ _) (by intro i c h; simp [initWorld] at h) es
+  have h8r : W8 (drun (initDuo cfgS cfgR ls ds rs lr dr rr) evs).r := by
+    rw [her']; exact W8_run (WInv_init _ _ _ _) (by intro i c h; simp [initWorld] at h) er
+  obtain ⟨ca, hca, hoka⟩ := hRSs.r3 a hsa
+  obtain ⟨cb, hcb, hokb⟩ := hRSr.r3 b hrb
+  obtain ⟨hwa, houta, _⟩ := send_ok_link hL hk' hkl a ca hca hoka
+  obtain ⟨L, hLm, hLb, hLw, _⟩ := recv_ok_link hL hk' hkl b cb hcb hokb
+  have hLa : L.sEnd = a := by rw [hwa] at hLw; cases hLw; rfl
+  refine ⟨L, hLm, hLa, hLb, hwa, ⟨ca, hca, by rw [← hcs]; exact houta⟩, ?_, ?_, ?_, ?_⟩
+  · intro i ci hci hout
+    have := ((hL.ws.conns i ci hci).go (by rw [hcs]; exact hout)).2.1
+    rw [hwa] at this; cases this; rfl
+  · refine ⟨cb, hcb, ?_⟩
+    have := (hL.wr.conns b cb hcb).okR hokb hk'.receiver
+    rw [hcr, ← hk.sr] at this; exact this
+  · intro i ci hci hia
+    have hnp := TR_no_pending hTs hsa i ci hci
+    refine ⟨hnp, ?_⟩
+    cases hn : ci.negD with
+    | pending => exact absurd hn hnp
+    | ok =>
+      have := (send_ok_link hL hk' hkl i ci hci hn).1
+      rw [hwa] at this; cases this; exact absurd rfl hia
+    | fail e => exact h8s i ci hci e hn
+  · intro j cj hcj hjb
+    have hnp := TR_no_pending hTr hrb j cj hcj
+    refine ⟨hnp, ?_⟩
+    cases hn : cj.negD with
+    | pending => exact absurd hn hnp
+    | ok =>
+      obtain ⟨L', hL'm, hL'j, hL'w, _⟩ := recv_ok_link hL hk' hkl j cj hcj hn
+      have : L'.sEnd = L.sEnd := by rw [hLw] at hL'w; exact (Option.some.inj hL'w).symm
+      have := hL.injS L' L hL'm hLm this
+      subst this
+      exact absurd (hL'j.symm.trans hLb) hjb
+    | fail e => exact h8r j cj hcj e hn
+
+/-- the ingredient of `same_link` that was only judged by the oracle before: `connect()` returns
+    only a connection whose negotiation succeeded (so, for the Sender, `_winner`) -/
+theorem result_is_negotiated (cfg : Cfg) (l : Bool) (d : Nat) (r : List Nat) (es : List Event) (i : Nat)
+    (hres : (run (initWorld cfg l d r) es).result = .ok i) :
+    ∃ c, (run (initWorld cfg l d r) es).conns i = some c ∧ c.negD = .ok :=
+  (run_RS (WInv_init _ _ _ _) (RS_init _ _ _ _) es).r3 i hres
+
+end
+
 /-! ## the hypotheses are satisfiable, the conclusions are not vacuous -/
 
 def toyCfg (sender : Bool) : Cfg :=
@@ -497,5 +604,49 @@ example : ∃ c, CInv (toyCfg true) none 0 c ∧ c.negD = .pending ∧ c.state =
   have h := (startNeg_ok (cfg := toyCfg true) (w0 := none) (i := 0) none none (60, 0) (by simp)).1
   have hw : (startNegotiation (toyCfg true) none 0 (newConn none none (60, 0))).1.winner = none := by decide
   rw [hw] at h; exact h
+
+
+/-! ### `same_link` is not vacuous -/
+
+def toyR : Cfg :=
+  { isSender := false, sendThis := [7, 8, 9], expectThis := [1, 2], relayHs := [6], recLayer := fun b => some b,
+    recRest := fun b => b }
+
+example : SharedKey (toyCfg true) toyR := ⟨rfl, rfl, rfl, rfl⟩
+
+/-- the Sender listens, a stranger connects first and sends garbage, then the Receiver's direct
+    connector reaches the port; bytes flow in pieces in both directions -/
+def toyDuo : Duo :=
+  drun (initDuo (toyCfg true) toyR true 0 [] false 1 [])
+    [.s .connect, .r .connect, .s .inbound, .s (.data 0 [7, 7]), .link (.sListens 0),
+     .fwdRS 0 2, .fwdRS 0 5, .fwdSR 0 1, .fwdSR 0 100]
+
+example : toyDuo.s.result = .ok 1 ∧ toyDuo.r.result = .ok 0 ∧ toyDuo.links = [{ sEnd := 1, rEnd := 0, relay := false }] ∧
+    (toyDuo.s.conns 0).map (·.state) = some .hungUp := by decide
+
+example : Keyless toyDuo := by
+  have hL : LInv toyDuo := LInv_drun (LInv_init _ _ _ _ _ _ _ _) _
+  refine ⟨?_, ?_⟩
+  · intro i c hc hl
+    match i with
+    | 0 =>
+      have h0 : (toyDuo.s.conns 0).map (·.rx) = some [7, 7] := by decide
+      have h1 : (toyDuo.s.conns 0).map (fun c => pre c) = some [] := by decide
+      rw [hc] at h0 h1
+      simp at h0 h1
+      rw [h0, h1]
+      decide
+    | 1 => exact absurd hl (by decide)
+    | k + 2 =>
+      have hn : toyDuo.s.n = 2 := by decide
+      have := hL.ws.bound (k + 2) (by omega)
+      rw [this] at hc; cases hc
+  · intro i c hc hl
+    match i with
+    | 0 => exact absurd hl (by decide)
+    | k + 1 =>
+      have hn : toyDuo.r.n = 1 := by decide
+      have := hL.wr.bound (k + 1) (by omega)
+      rw [this] at hc; cases hc
 
 end WV.Props.C07
